@@ -190,6 +190,9 @@ class Crazyflie():
         logger.info('Param TOC finished updating')
         self.connected_ts = datetime.datetime.now()
         self.connected.call(self.link_uri)
+        if self.link is None:
+            # The link has been closed from a connected callback, the connection sequence ends here
+            return
         # Trigger the update for all the parameters
         self.param.request_update_of_all_params()
 
